@@ -3,12 +3,21 @@ C12 — Dependency URLs and copied files agree.   (file-system half: PARTIAL —
 
 Model: Model/Paths.lean (bytes, quote/unquote, posixpath.join), Model/DepTags.lean (source_path_map, as_dict,
 as_html_tags), Model/FS.lean (abstract file system, copy_to, save_html).  Guards: Spec/Paths.lean.
-Helper lemmas: Lemmas/{Paths,Guards,FS,Copy,CopyTo,CopyAll}.lean.
+Model/SaveDoc.lean (save_html of HTMLDocument / Tag / TagList over `Doc.docRender`).
+Helper lemmas: Lemmas/{Paths,Guards,FS,Copy,CopyTo,CopyAll,Save,SaveDoc}.lean; the head of the document: Props/C11.lean.
+
+Finding F-C12.  Clause 1 of the statement fixes the URL as `prefix/name[-version]/percent-encoded relative path`:
+only the relative path is encoded.  Clause 2 ("percent-decoded, names a copied file") therefore fails when the prefix
+(libdir), the name or the version contains `%XX`, `#`, `?` (or a `:` in the first component): the guards `CleanDirOpt`
+and `SafeSeg` exclude exactly these among printable ASCII, `C12_urls_resolve_full_is_false` proves that they cannot be
+dropped, and the check reports the class as KNOWN-FINDING.
 -/
 import HtmlVerif.Lemmas.Guards
 import HtmlVerif.Lemmas.CopyAll
 import HtmlVerif.Lemmas.DepTags
 import HtmlVerif.Lemmas.Save
+import HtmlVerif.Lemmas.SaveDoc
+import HtmlVerif.Props.C11
 
 namespace HtmlVerif.C12
 open HtmlVerif FS
@@ -58,22 +67,23 @@ theorem C12_url_local (d : DepInfo) (pkg : Option Str) (dir abs : Str) (hsrc : d
   refine ⟨by rw [sourcePathMap_subdir hsrc], hh, rfl, ?_⟩
   simp [urlOf, hh]
 
-/-- local source, under the statement's guards: exactly `base "/" quote(path)` -/
+/-- local source, the directory name a single component (any characters), the path clean:
+    exactly `base "/" quote(path)` — prefix, name and version are written as they are, only the path is encoded -/
 theorem C12_url_local_closed (d : DepInfo) (pkg : Option Str) (dir abs : Str)
     (hsrc : d.source = .subdir pkg dir abs) (lp : Option Str) (iv : Bool) (p : Str)
-    (hn : SafeSeg (dirName d iv) = true) (hp : CleanRel p = true) :
+    (hn : WideSeg (dirName d iv) = true) (hp : CleanRel p = true) :
     urlOf d lp iv p = hrefBaseSpec lp (dirName d iv) ++ '/' :: quote p := by
   have hq : (quote p).head? ≠ some '/' := quoteB_head (cleanRel_bytesHead hp)
-  rw [(C12_url_local d pkg dir abs hsrc lp iv p (safeSeg_head hn)).2.2.2]
+  rw [(C12_url_local d pkg dir abs hsrc lp iv p (wideSeg_head hn)).2.2.2]
   have hne : hrefBaseSpec lp (dirName d iv) ≠ [] := by
-    have h0 := safeSeg_ne_nil hn
+    have h0 := wideSeg_ne_nil hn
     unfold hrefBaseSpec
     cases lp with
     | none => exact h0
     | some l => simp only []; split; exact h0; split <;> simp [h0]
   have hlast : (hrefBaseSpec lp (dirName d iv)).getLast? ≠ some '/' := by
-    have h0 := safeSeg_ne_nil hn
-    have h1 := safeSeg_last hn
+    have h0 := wideSeg_ne_nil hn
+    have h1 := wideSeg_last hn
     have hl : ∀ x : Str, (x ++ dirName d iv).getLast? = (dirName d iv).getLast? := by
       intro x; rw [List.getLast?_append]
       cases hg : (dirName d iv).getLast? with
@@ -188,7 +198,7 @@ theorem C12_agree (d : DepInfo) (pkg : Option Str) (dir abs : Str) (hsrc : d.sou
     ∧ resolveRef (pathResolve (dirname fileAbs)) (urlOf d libdir iv p)
         = pathResolve (posixJoin (posixJoin (destDir fileAbs libdir) (dirName d iv)) p) := by
   have hloc := C12_url_local d pkg dir abs hsrc libdir iv p (safeSeg_head hn)
-  have hclosed := C12_url_local_closed d pkg dir abs hsrc libdir iv p hn hp
+  have hclosed := C12_url_local_closed d pkg dir abs hsrc libdir iv p (safeSeg_wide hn) hp
   -- characters of the base URL
   have hbase : ∀ c ∈ hrefBaseSpec libdir (dirName d iv), (inertC c = true ∨ c = '/') := by
     intro c hc
@@ -313,19 +323,6 @@ theorem C12_no_copy (d : DepInfo) (h : d.source = .none ∨ ∃ u, d.source = .h
 
 /-! ## 5. save_html -/
 
-/-- `save_html(file, libdir, iv)` renders with `lib_prefix = libdir`, copies every dependency of *that* rendering to
-    `dirname(file)/libdir` in order, and only then writes the file; it returns the `file` argument unchanged.
-    If a copy fails, the error is propagated and the HTML file is not written. -/
-theorem C12_save (render : Option Str → Bool → FsRendered) (file fileAbs : Str) (libdir : Option Str) (iv : Bool)
-    (fs : FS) :
-    saveHtml render file fileAbs libdir iv fs =
-      match copyAll (render libdir iv).deps (destDir fileAbs libdir) iv fs with
-      | (fs1, .error e) => (fs1, .error e)
-      | (fs1, .ok _) =>
-        if fs1.isDir (pathResolve fileAbs) || fs1.fileOnPath (pathResolve fileAbs).dropLast then (fs1, .error .exception)
-        else (fs1.write (pathResolve fileAbs) (utf8 (render libdir iv).html), .ok file) := by
-  rfl
-
 /-- the destination of the dependencies is `dirname(file)` when `libdir` is `None` or `""`, else `dirname(file)/libdir` -/
 theorem C12_save_destdir (fileAbs : Str) (libdir : Option Str) (hl : CleanDirOpt libdir = true) :
     pathResolve (destDir fileAbs libdir) = pathResolve (dirname fileAbs) ++ segsOpt libdir := by
@@ -341,12 +338,7 @@ theorem C12_save_destdir (fileAbs : Str) (libdir : Option Str) (hl : CleanDirOpt
       simp only [destDir.withPrefix', hle, segsOpt]
       exact resolve_posixJoin _ l (cleanDir_head hcd)
 
-/-- `Tag.save_html` and `TagList.save_html` behave exactly as `HTMLDocument.save_html` of the wrapping document -/
-theorem C12_save_receivers (recv : Receiver) (render : Option Str → Bool → FsRendered) (file fileAbs : Str)
-    (libdir : Option Str) (iv : Bool) (fs : FS) :
-    saveHtmlOn recv render file fileAbs libdir iv fs = saveHtml render file fileAbs libdir iv fs := rfl
-
-/-- **end to end.**  Let `deps` be the dependencies of the rendering, with URL-inert, pairwise different directory
+/-- **copies and URLs, for any rendering.**  Let `deps` be the dependencies of the rendering, with URL-inert, pairwise different directory
     names, each ready to be copied, sources apart from all targets, and the HTML file apart from all targets and
     creatable.  Then `save_html` succeeds and returns `file`; the file holds the rendering; **every local URL of a wanted
     file, percent-decoded and resolved against the file's directory, names a copy byte-identical to its source**;
@@ -427,16 +419,111 @@ theorem C12_save_urls (render : Option Str → Bool → FsRendered) (file fileAb
     simp only [hq, if_false]
     exact hframe q hout
 
-/-- a dependency of the rendering cannot be copied (a listed file is missing, …) ⇒ `save_html` raises the same error
-    and does not write the HTML file; dependencies before the failing one have been copied, the failing one's target
-    is untouched (`C12_copy_missing`) -/
-theorem C12_save_fail (render : Option Str → Bool → FsRendered) (file fileAbs : Str) (libdir : Option Str) (iv : Bool)
-    (fs fs1 : FS) (e : Err)
-    (hc : copyAll (render libdir iv).deps (destDir fileAbs libdir) iv fs = (fs1, .error e)) :
-    saveHtml render file fileAbs libdir iv fs = (fs1, .error e) :=
-  saveHtml_of_copyAll_error hc
+/-! ## 6. save_html of a document, a tag, a list: what is written names what is copied -/
 
-/-! ## non-vacuity: a concrete instance satisfying every guard used above -/
+open HtmlVerif.Doc in
+/-- **the markup that is written carries the URLs of `as_dict`.**  The rendering made with `lib_prefix = libdir`
+    is the doctype and the markup of a tree whose one head holds (after `<meta charset>` and the user's head children)
+    the listing and the block `ms`; for **every dependency of the resolved list** `ms` contains, in place, that
+    dependency's block: its `<meta>` tags, one `<link>` per stylesheet whose `href` attribute is exactly
+    `urlOf d libdir iv path`, one `<script>` per script whose `src` attribute is exactly `urlOf d libdir iv path`,
+    then the dependency's own head nodes.  (Attribute values are written attribute-escaped: C03.) -/
+theorem C12_head_urls {cfg : Cfg} {content : Nodes} {kw : List (Str × AttrArg)} {libdir : Option Str} {iv : Bool}
+    {r : DocRendered} (h : docRender cfg content kw libdir iv = .ok r) :
+    ∃ n w a ks ms,
+      r.html = doctype ++ (Node.tag n w a (withHead (listing (docDeps content) ++ ms) ks)).render cfg 0 ['\n'] ∧
+      ∀ d hh hd, Node.dep d hh hd ∈ docDeps content → SoleKeys d = true →
+        ∃ metas links scripts pre post,
+          ms = pre ++ (Nodes.ofList (metas ++ links ++ scripts) ++ (if hh then hd.expandAll else .nil)) ++ post ∧
+          (∀ t ∈ metas, ∃ a, t = .tag nMeta true a .nil) ∧ (∀ t ∈ links, ∃ a, t = .tag nLink true a .nil) ∧
+          (∀ t ∈ scripts, ∃ a, t = .tag nScript true a .nil) ∧
+          links.map (tagAttr nLink dtKHref)
+            = d.stylesheet.map (fun s => (alookup dtKHref s).map fun p => AttrVal.plain (urlOf d libdir iv p)) ∧
+          scripts.map (tagAttr nScript dtKSrc)
+            = d.script.map (fun s => (alookup dtKSrc s).map fun p => AttrVal.plain (urlOf d libdir iv p)) := by
+  obtain ⟨t, ht, hhtml, _⟩ := C11.C11_doctype_prefix h
+  obtain ⟨n, w, a, ks, ms, _, hm, rfl, _, _⟩ := C11.C11_head ht
+  refine ⟨n, w, a, ks, ms, hhtml, ?_⟩
+  intro d hh hd hmem hk
+  obtain ⟨ts, pre, post, hts, rfl⟩ := depMarkupAll_mem hm _ hmem
+  obtain ⟨metas, links, scripts, rfl, hmeta, hlk, hsc, hl, hs⟩ := asHtmlTags_urls (by simpa [depTags] using hts) hk
+  refine ⟨metas, links, scripts, pre, post, ?_, hmeta, hlk, hsc, hl, hs⟩
+  have hc : ChildlessTags (metas ++ links ++ scripts) := by
+    intro x hx
+    simp only [List.mem_append] at hx
+    rcases hx with (hx | hx) | hx
+    · obtain ⟨a, ha⟩ := hmeta x hx; exact ⟨_, a, ha⟩
+    · obtain ⟨a, ha⟩ := hlk x hx; exact ⟨_, a, ha⟩
+    · obtain ⟨a, ha⟩ := hsc x hx; exact ⟨_, a, ha⟩
+  rw [Nodes.expandAll_append, (childless_expand hc).1]
+  cases hh <;> simp [Nodes.expandAll]
+
+/-- what `save_html` copies are the dependencies `render()` returns; under C11's guard that is the resolved list -/
+theorem C12_saved_deps_resolved {cfg : Cfg} {content : Nodes} {kw : List (Str × AttrArg)} {libdir : Option Str}
+    {iv : Bool} {r : Doc.DocRendered} (guard : Doc.noDepInDepHead content = true)
+    (h : Doc.docRender cfg content kw libdir iv = .ok r) :
+    (docFs cfg content kw libdir iv).deps = depInfos (Doc.docDeps content)
+    ∧ ∀ d hh hd, Node.dep d hh hd ∈ Doc.docDeps content → d ∈ (docFs cfg content kw libdir iv).deps := by
+  have e : (docFs cfg content kw libdir iv).deps = depInfos (Doc.docDeps content) := by
+    rw [docFs_of_ok h, C11.C11_returned guard h]
+  exact ⟨e, fun d hh hd hm => e ▸ mem_depInfos hm⟩
+
+/-- **save_html, end to end, on a document, a tag or a list.**  Let `r` be the rendering of the saving document
+    (`HTMLDocument(self)` for a tag / list) with `lib_prefix = libdir`, and let the dependencies it returns satisfy the
+    guards of `C12_save_urls`.  Then `save_html` **returns the `file` argument**, the file at that path holds exactly
+    `r.html` (whose head carries `urlOf d libdir iv p` for every resolved dependency: `C12_head_urls`), and for every
+    returned local dependency `d` and every wanted clean path `p`: the URL `urlOf d libdir iv p` is a plain relative
+    reference which, resolved against the file's directory and percent-decoded, names a file **byte-identical to the
+    source** `srcDir d / p`; the target directories hold nothing else (stale content gone); nothing else changed. -/
+theorem C12_save_doc (cfg : Cfg) (recv : Receiver) (file fileAbs : Str) (libdir : Option Str) (iv : Bool) (fs : FS)
+    (r : Doc.DocRendered) (h : Doc.docRender cfg recv.doc.1 recv.doc.2 libdir iv = .ok r)
+    (hl : CleanDirOpt libdir = true)
+    (hnames : ∀ d ∈ depInfos r.deps, isLocal d = true → SafeSeg (dirName d iv) = true)
+    (hdistinct : (depInfos r.deps).Pairwise (fun a b => dirName a iv ≠ dirName b iv))
+    (hready : ∀ d ∈ depInfos r.deps, CopyReady d (destDir fileAbs libdir) iv fs)
+    (hST : ∀ a ∈ depInfos r.deps, ∀ b ∈ depInfos r.deps, isLocal a = true → isLocal b = true →
+      Apart (srcDir a) (tgtDir b (destDir fileAbs libdir) iv))
+    (hF : ∀ d ∈ depInfos r.deps, isLocal d = true →
+      Apart (pathResolve fileAbs) (tgtDir d (destDir fileAbs libdir) iv))
+    (hFd : fs.isDir (pathResolve fileAbs) = false) (hFp : fs.fileOnPath (pathResolve fileAbs).dropLast = false) :
+    ∃ fs', saveOn cfg recv file fileAbs libdir iv fs = (fs', .ok file)
+      ∧ fs'.read (pathResolve fileAbs) = some (utf8 r.html)
+      ∧ (∀ d ∈ depInfos r.deps, isLocal d = true → ∀ p, CleanRel p = true →
+          wantedB d (segs (utf8 p)) = true →
+          relRefOk (urlOf d libdir iv p) = true ∧
+          fs'.read (resolveRef (pathResolve (dirname fileAbs)) (urlOf d libdir iv p))
+            = fs.read (srcDir d ++ segs (utf8 p)))
+      ∧ (∀ d ∈ depInfos r.deps, isLocal d = true → ∀ q, wantedB d q = false →
+          fs'.read (tgtDir d (destDir fileAbs libdir) iv ++ q) = none)
+      ∧ (∀ q, q ≠ pathResolve fileAbs →
+          (∀ d ∈ depInfos r.deps, isLocal d = true → ¬ tgtDir d (destDir fileAbs libdir) iv <+: q) →
+          fs'.read q = fs.read q) := by
+  have e := docFs_of_ok h
+  have hu := C12_save_urls (docFs cfg recv.doc.1 recv.doc.2) file fileAbs libdir iv fs hl
+    (by rw [e]; exact hnames) (by rw [e]; exact hdistinct) (by rw [e]; exact hready) (by rw [e]; exact hST)
+    (by rw [e]; exact hF) hFd hFp
+  rw [e] at hu
+  obtain ⟨fs', h1, h2⟩ := hu
+  exact ⟨fs', by simp only [saveOn, saveDoc, h]; exact h1, h2⟩
+
+/-- a listed file of a returned dependency is missing (or any other copy fails) ⇒ `save_html` raises that error, the
+    state is the one the copies made so far left (the failing dependency's target untouched: `C12_copy_missing`), and
+    **the HTML file is not written**: its old content, if any, is still what the copies left; a `render()` that
+    raises leaves the file system as it was -/
+theorem C12_save_fail (cfg : Cfg) (recv : Receiver) (file fileAbs : Str) (libdir : Option Str) (iv : Bool)
+    (fs : FS) :
+    (∀ e, Doc.docRender cfg recv.doc.1 recv.doc.2 libdir iv = .error e →
+      saveOn cfg recv file fileAbs libdir iv fs = (fs, .error e))
+    ∧ (∀ r fs1 e, Doc.docRender cfg recv.doc.1 recv.doc.2 libdir iv = .ok r →
+        copyAll (depInfos r.deps) (destDir fileAbs libdir) iv fs = (fs1, .error e) →
+        saveOn cfg recv file fileAbs libdir iv fs = (fs1, .error e)) := by
+  constructor
+  · intro e h; simp [saveOn, saveDoc, h]
+  · intro r fs1 e h hc
+    simp only [saveOn, saveDoc, h]
+    exact saveHtml_of_copyAll_error (by rw [docFs_of_ok h]; exact hc)
+
+/-! ### the concrete instance used below and in the non-vacuity examples -/
 
 /-- `HTMLDependency("my-dep", "1.0+x", source={"subdir": "/s"}, script={"src": "a b/100%é.js"}, stylesheet={"href": "q#?.css"})` -/
 def exDep : DepInfo :=
@@ -457,6 +544,62 @@ def exFS : FS :=
 
 def exFile : Str := ['/', 'o', '/', 'i', '.', 'h', 't', 'm', 'l']
 def exLib : Option Str := some ['l', 'i', 'b']
+
+/-! ## 7. finding F-C12: the character guards cannot be dropped -/
+
+/-- **the statement's clause 2 is false without the character guards** (the code writes prefix, name and version
+    unencoded, as clause 1 prescribes): for every clean path, *any* relative `libdir` without dot segments and *any*
+    single-component directory name, the URL would have to be a plain relative reference that, percent-decoded and
+    resolved against the file's directory, is the path `copy_to` writes to.  Witnesses: `libdir = "my%20lib"` (decodes to
+    `my lib`, the files are in `my%20lib`), `libdir = "a#b"` (cut at the fragment), name `a%41` (decodes to `aA`). -/
+theorem C12_urls_resolve_full_is_false :
+    ¬ ∀ (d : DepInfo) (fileAbs : Str) (libdir : Option Str) (iv : Bool) (p : Str),
+        isLocal d = true → CleanRel p = true → WideDirOpt libdir = true → WideSeg (dirName d iv) = true →
+        relRefOk (urlOf d libdir iv p) = true
+        ∧ resolveRef (pathResolve (dirname fileAbs)) (urlOf d libdir iv p)
+            = pathResolve (posixJoin (posixJoin (destDir fileAbs libdir) (dirName d iv)) p) := by
+  intro h
+  have h1 := h exDep exFile (some ['m', 'y', '%', '2', '0', 'l', 'i', 'b']) true ['a', '.', 'j', 's']
+    (by decide) (by decide) (by decide) (by decide)
+  revert h1
+  decide
+
+/-- the same for the other two shapes of the class: a fragment character in the prefix makes the URL no plain
+    relative reference; a `%XX` in the *name* decodes to another directory -/
+theorem C12_urls_resolve_full_is_false_more :
+    relRefOk (urlOf exDep (some ['a', '#', 'b']) true ['a', '.', 'j', 's']) = false
+    ∧ resolveRef (pathResolve (dirname exFile)) (urlOf { exDep with name := ['a', '%', '4', '1'] } none false ['a', '.', 'j', 's'])
+        ≠ pathResolve (posixJoin (posixJoin (destDir exFile none) ['a', '%', '4', '1']) ['a', '.', 'j', 's'])
+    ∧ urlSpecial ['m', 'y', '%', '2', '0', 'l', 'i', 'b'] = true ∧ urlSpecial ['a', '#', 'b'] = true
+    ∧ urlSpecial ['a', '%', '4', '1'] = true := by
+  decide
+
+/-- conversely, under the guards nothing of the class is left: a guarded base URL has no special character -/
+theorem C12_guards_exclude_special (libdir : Option Str) (dn : Str)
+    (hl : CleanDirOpt libdir = true) (hn : SafeSeg dn = true) : urlSpecial (hrefBaseSpec libdir dn) = false := by
+  have hbase : ∀ c ∈ hrefBaseSpec libdir dn, (inertC c = true ∨ c = '/') := by
+    intro c hc
+    rcases mem_hrefBaseSpec hc with ⟨l, hlp, hne, hcl⟩ | h | h
+    · subst hlp
+      have hle : l.isEmpty = false := by cases l <;> simp_all
+      have hcd : CleanDir l = true := by simpa [CleanDirOpt, hle] using hl
+      exact cleanDir_chars hcd c hcl
+    · exact .inr h
+    · exact .inl (safeSeg_inert hn c h)
+  have hplain : ∀ c ∈ hrefBaseSpec libdir dn, c ≠ '%' ∧ c ≠ '#' ∧ c ≠ '?' ∧ c ≠ ':' := by
+    intro c hc
+    rcases hbase c hc with h | h
+    · have := inertC_ne h
+      exact ⟨this.1, this.2.2.1.2.1, this.2.2.1.1, this.2.2.1.2.2⟩
+    · subst h; decide
+  simp only [urlSpecial, Bool.or_eq_false_iff, List.any_eq_false, urlSpecialC, Bool.or_eq_true, beq_iff_eq, not_or]
+  refine ⟨fun c hc => ⟨⟨(hplain c hc).1, (hplain c hc).2.1⟩, (hplain c hc).2.2.1⟩, ?_⟩
+  rw [Bool.eq_false_iff]
+  intro hm
+  have hm' : ':' ∈ (hrefBaseSpec libdir dn).takeWhile (· != '/') := by simpa using hm
+  exact (hplain ':' (List.takeWhile_subset _ hm')).2.2.2 rfl
+
+/-! ## non-vacuity: a concrete instance satisfying every guard used above -/
 
 example : SafeSeg (dirName exDep true) = true ∧ CleanDirOpt exLib = true
     ∧ (∀ f ∈ [['a', ' ', 'b', '/', '1', '0', '0', '%', 'é', '.', 'j', 's'], ['q', '#', '?', '.', 'c', 's', 's']],
@@ -485,6 +628,27 @@ example :
         [[0x6F], [0x6C, 0x69, 0x62], utf8 (dirName exDep true), [0x6F, 0x6C, 0x64]]) = none
     ∧ ((copyTo exDep (destDir exFile exLib) true exFS).1.read [[0x75]]) = some [7] := by
   decide
+
+/-- `Tag("div", exDep).save_html("/o/i.html", libdir="lib")` on `exFS`, with the document model doing the rendering:
+    the hypotheses of `C12_save_doc` / `C12_head_urls` hold of it (`SoleKeys`, C11's guard, a successful rendering),
+    it returns the file, the written markup contains the URL, and the URL leads to the copy -/
+def exRecv : Receiver := .tag (.tag ['d', 'i', 'v'] true [] (.cons (.dep exDep false .nil) .nil))
+
+example : SoleKeys exDep = true ∧ Doc.noDepInDepHead exRecv.doc.1 = true := by decide +kernel
+
+example :
+    (match Doc.docRender C11.cfg0 exRecv.doc.1 exRecv.doc.2 exLib true with
+      | .ok r => depInfos r.deps == [exDep]
+          && isInfix (['s', 'r', 'c', '=', '"', 'l', 'i', 'b', '/', 'm', 'y', '-', 'd', 'e', 'p', '-', '1', '.', '0', '+', 'x', '/',
+                'a', '%', '2', '0', 'b', '/', '1', '0', '0', '%', '2', '5', '%', 'C', '3', '%', 'A', '9', '.', 'j', 's', '"'] : Str) r.html
+      | .error _ => false) = true
+    ∧ (match (saveOn C11.cfg0 exRecv exFile exFile exLib true exFS).2 with
+        | .ok f => f == exFile
+        | .error _ => false) = true
+    ∧ (saveOn C11.cfg0 exRecv exFile exFile exLib true exFS).1.read
+        (resolveRef (pathResolve (dirname exFile))
+          (urlOf exDep exLib true ['a', ' ', 'b', '/', '1', '0', '0', '%', 'é', '.', 'j', 's'])) = some [1, 2, 3] := by
+  decide +kernel
 
 /-- with the JavaScript file missing, `copy_to` fails and returns the file system it was given -/
 example : copyTo exDep (destDir exFile exLib) true ⟨exFS.files.drop 1⟩ = (⟨exFS.files.drop 1⟩, .error .exception) := by
